@@ -484,6 +484,19 @@ Notation gpf_step_aliased_ := (gpf_step_aliased st_px gl_dens lk_zero1 gpf_sampl
 Definition gpf_states (gc : G -> G -> GS -> result G GS) (pred out : pset G St) (st : gpf_state LK RNG GS) : St :=
   fst (gpf_sample (g_rng st) (r_out (gc (fst pred) (fst out) (g_inner st))) (snd out)).
 
+(* the step in one equation *)
+Lemma gpf_step_spec (gc : G -> G -> GS -> result G GS) (lm : likmodel) (mm : mmodel) pred out st :
+  let states := gpf_states gc pred out st in
+  let vl := fst (lik_eval_ lm mm states) in
+  r_out (gpf_step_ gc lm mm pred out st) =
+    (if fst vl then (gpf_wupd pred (snd vl) (r_out (gc (fst pred) (fst out) (g_inner st)), states), states) else pred) /\
+  pf_get_lik (g_pf (r_st (gpf_step_ gc lm mm pred out st))) = vl.
+Proof.
+  unfold gpf_step, gpf_states.
+  destruct (gpf_sample _ _ _) as [states rng']. simpl.
+  destruct (lik_eval_ lm mm states) as [[[|] lk] l]; simpl; auto.
+Qed.
+
 (* general form, for every wrapped correction, likelihood model and sensor *)
 Lemma gpf_identity_model (gc : G -> G -> GS -> result G GS) (lm : likmodel) (mm : mmodel) pred out st :
   fst (fst (lik_eval_ lm mm (gpf_states gc pred out st))) = false ->
@@ -621,3 +634,54 @@ Proof. intros E. destruct pc. simpl. now rewrite E. Qed.
 End SIS.
 
 End Proofs.
+
+(* ------------------------------------------------- structured beliefs *)
+Lemma nth_ext_all {A} (l l' : list A) :
+  length l = length l' -> (forall i d, nth i l d = nth i l' d) -> l = l'.
+Proof.
+  revert l'. induction l as [|a l IH]; destruct l' as [|b l']; simpl; intros Hl Hn; try discriminate; [reflexivity|].
+  f_equal.
+  - exact (Hn 0 a).
+  - apply IH; [now inversion Hl|]. intros i d. exact (Hn (S i) d).
+Qed.
+
+Lemma whole_object_is_componentwise (Mn Cv Wt Sh : Type) (a b : list (Mn * Cv * Wt) * Sh) :
+  a = b <->
+  (length (fst a) = length (fst b) /\ snd a = snd b /\
+   forall i d, fst (fst (nth i (fst a) d)) = fst (fst (nth i (fst b) d)) /\
+               snd (fst (nth i (fst a) d)) = snd (fst (nth i (fst b) d)) /\
+               snd (nth i (fst a) d) = snd (nth i (fst b) d)).
+Proof.
+  split.
+  - intros ->. repeat split.
+  - destruct a as [ca sa], b as [cb sb]; simpl. intros [Hl [Hs Hn]]. subst sb. f_equal.
+    apply nth_ext_all; [exact Hl|]. intros i d. destruct (Hn i d) as [A [B C]].
+    destruct (nth i ca d) as [[m c] w], (nth i cb d) as [[m' c'] w']; simpl in *. congruence.
+Qed.
+
+Lemma kf_no_partial_update (Mn Cv Wt Sh Y X YP NU RC PY : Type)
+      (kf_px : list (Mn * Cv * Wt) * Sh -> X) kf_upd (p : pattern) (mm : mmodel Y X YP NU RC) pred out (st : kf_state NU PY) :
+  fails_any p sites4 = true ->
+  let o := r_out (kf_step kf_px kf_upd (inject p mm) pred out st) in
+  length (fst o) = length (fst pred) /\ snd o = snd pred /\
+  forall i d, fst (fst (nth i (fst o) d)) = fst (fst (nth i (fst pred) d)) /\
+              snd (fst (nth i (fst o) d)) = snd (fst (nth i (fst pred) d)) /\
+              snd (nth i (fst o) d) = snd (nth i (fst pred) d).
+Proof.
+  intros Hf o. apply whole_object_is_componentwise. unfold o.
+  exact (proj1 (kf_identity _ _ _ _ _ _ _ kf_px kf_upd p mm pred out st Hf)).
+Qed.
+
+Lemma gpf_no_partial_update (Mn Cv Wt Sh Sx Y X YP NU RC LK RNG GS : Type)
+      st_px gl_dens (z : LK) gpf_sample gpf_wupd (gc : _ -> _ -> GS -> result _ GS) (lm : likmodel (list Sx) LK) (p : pattern)
+      (mm : mmodel Y X YP NU RC) (pred out : pset (list (Mn * Cv * Wt) * Sh) (list Sx)) (st : gpf_state LK RNG GS) :
+  lik_fails _ _ lm p = true ->
+  let o := r_out (gpf_step st_px gl_dens z gpf_sample gpf_wupd gc (inject_lik z p lm) (inject p mm) pred out st) in
+  length (fst (fst o)) = length (fst (fst pred)) /\ snd (fst o) = snd (fst pred) /\
+  (forall i d, nth i (fst (fst o)) d = nth i (fst (fst pred)) d) /\
+  length (snd o) = length (snd pred) /\ (forall i d, nth i (snd o) d = nth i (snd pred) d).
+Proof.
+  intros Hf o.
+  assert (E : o = pred) by exact (proj1 (gpf_identity _ _ _ _ _ _ _ _ _ st_px gl_dens z _ gpf_sample gpf_wupd gc lm p mm pred out st Hf)).
+  rewrite E. repeat split.
+Qed.
